@@ -141,9 +141,10 @@ class ExprMixin(ExecBase):
         return z3.BitVecVal(x, 8)
 
     def byte_to_int(self, bt):
+        signed = bool(getattr(self.c, "signed_bytes", False))        # C `char*` buffers (translated Cython): signed char
         if T.mode() == "int":
-            return z3.BV2Int(bt, False)
-        return z3.ZeroExt(T.width() - 8, bt)
+            return z3.BV2Int(bt, signed)
+        return z3.SignExt(T.width() - 8, bt) if signed else z3.ZeroExt(T.width() - 8, bt)
 
     def ev_Name(self, e, st):
         n = e.id
